@@ -167,7 +167,22 @@ func oneStart(r *corr.Run, cs []comp) {
 // oneCycle runs Start (+ Close when Start succeeded) once; it reports whether the app was fully
 // started and closed, i.e. whether another cycle makes sense.
 func oneCycle(r *corr.Run, cs []comp, a *realapp.App, rec *recorder, cycle int) bool {
-	err := a.Start(context.Background())
+	// the property does not depend on the caller's context: a cancelled / expired context must not cut
+	// the start-failure cleanup or the shutdown short
+	startCtx, closeCtx := context.Background(), context.Background()
+	if r.Chance(30) {
+		c, cancel := context.WithCancel(context.Background())
+		cancel()
+		closeCtx = c
+		r.Count("ctx.close.cancelled")
+	}
+	if r.Chance(15) {
+		c, cancel := context.WithCancel(context.Background())
+		cancel()
+		startCtx = c
+		r.Count("ctx.start.cancelled")
+	}
+	err := a.Start(startCtx)
 	op := "start " + wireAll(cs)
 	if len(cs) == 0 {
 		op = "start"
@@ -205,7 +220,7 @@ func oneCycle(r *corr.Run, cs []comp, a *realapp.App, rec *recorder, cycle int) 
 	// Close on a fully started app
 	if err == nil {
 		rec.evs = nil
-		cerr := a.Close(context.Background())
+		cerr := a.Close(closeCtx)
 		cop := "close " + wireAll(cs)
 		if len(cs) == 0 {
 			cop = "close"
@@ -434,6 +449,161 @@ outer:
 	r.Count("lookupT." + strings.SplitN(impl, ":", 2)[0])
 }
 
+// lookupSession: lookups (by name and by interface) from every level of a chain of containers,
+// interleaved with Register calls that shadow or add components — every lookup must reflect the
+// containers as they are NOW (local first, then parents).
+func lookupSession(r *corr.Run, depth int, tag *int) {
+	apps := make([]*realapp.App, depth) // apps[0] = innermost child
+	for i := depth - 1; i >= 0; i-- {
+		if i == depth-1 {
+			apps[i] = new(realapp.App)
+		} else {
+			apps[i] = apps[i+1].ChildApp()
+		}
+	}
+	type ent struct {
+		name, kind, tag int
+	}
+	chain := make([][]ent, depth)
+	render := func(from int, byType bool) string {
+		parts := []string{}
+		for _, cs := range chain[from:] {
+			if len(cs) == 0 {
+				parts = append(parts, "-")
+				continue
+			}
+			p := make([]string, len(cs))
+			for j, c := range cs {
+				if byType {
+					t := "_"
+					switch c.kind {
+					case 1:
+						t = "1"
+					case 2:
+						t = "2"
+					case 3:
+						t = "1+2"
+					}
+					p[j] = fmt.Sprintf("%s:%d", t, c.tag)
+				} else {
+					p[j] = fmt.Sprintf("%d:%d", c.name, c.tag)
+				}
+			}
+			parts = append(parts, strings.Join(p, ","))
+		}
+		return strings.Join(parts, "/")
+	}
+	var trace []string
+	steps := 4 + r.Intn(8)
+	for st := 0; st < steps; st++ {
+		d := r.Intn(depth)
+		if r.Chance(40) {
+			// register into container d (names unique per container, as Register demands)
+			name := r.Intn(4)
+			dup := false
+			for _, c := range chain[d] {
+				if c.name == name {
+					dup = true
+				}
+			}
+			if dup {
+				continue
+			}
+			*tag++
+			e := ent{name, r.Intn(4), *tag}
+			apps[d].Register(mkSess(e.name, e.kind, e.tag))
+			chain[d] = append(chain[d], e)
+			trace = append(trace, fmt.Sprintf("register d=%d name=%d kind=%d tag=%d", d, e.name, e.kind, e.tag))
+			continue
+		}
+		if r.Chance(50) {
+			name := r.Intn(5)
+			op := fmt.Sprintf("lookup %d %s", name, render(d, false))
+			impl := "notfound"
+			if got := apps[d].Component(fmt.Sprintf("s%d", name)); got != nil {
+				impl = fmt.Sprintf("found:%d", got.(interface{ tagv() int }).tagv())
+			}
+			want := "notfound"
+		outerN:
+			for _, cs := range chain[d:] {
+				for _, c := range cs {
+					if c.name == name {
+						want = fmt.Sprintf("found:%d", c.tag)
+						break outerN
+					}
+				}
+			}
+			trace = append(trace, op)
+			r.Check("C20", "app.session.lookup", trace, r.Ask(op), impl)
+			if want != impl {
+				r.Violate("C20", "", "app.session.lookup.oracle", fmt.Sprintf("Component gave %s, property requires %s", impl, want), trace)
+			}
+		} else {
+			ty := 1 + r.Intn(2)
+			op := fmt.Sprintf("lookupT %d %s", ty, render(d, true))
+			impl := "notfound"
+			if ty == 1 {
+				if v, err := realapp.GetComponent[ifaceA](apps[d]); err == nil {
+					impl = fmt.Sprintf("found:%d", v.(interface{ tagv() int }).tagv())
+				}
+			} else {
+				if v, err := realapp.GetComponent[ifaceB](apps[d]); err == nil {
+					impl = fmt.Sprintf("found:%d", v.(interface{ tagv() int }).tagv())
+				}
+			}
+			want := "notfound"
+		outerT:
+			for _, cs := range chain[d:] {
+				for _, c := range cs {
+					if c.kind&ty != 0 {
+						want = fmt.Sprintf("found:%d", c.tag)
+						break outerT
+					}
+				}
+			}
+			trace = append(trace, op)
+			r.Check("C20", "app.session.lookupT", trace, r.Ask(op), impl)
+			if want != impl {
+				r.Violate("C20", "", "app.session.lookupT.oracle", fmt.Sprintf("GetComponent gave %s, property requires %s", impl, want), trace)
+			}
+		}
+	}
+	r.Case(strings.Join(trace, ";"), depth >= 2)
+	r.Count("session")
+}
+
+// session components: a chosen name plus one of the four interface kinds
+type sessBase struct {
+	name, tag int
+}
+
+func (c *sessBase) Init(a *realapp.App) error { return nil }
+func (c *sessBase) Name() string              { return fmt.Sprintf("s%d", c.name) }
+func (c *sessBase) tagv() int                 { return c.tag }
+
+type sessNone struct{ sessBase }
+type sessA struct{ sessBase }
+type sessB struct{ sessBase }
+type sessAB struct{ sessBase }
+
+func (*sessA) A()  {}
+func (*sessB) B()  {}
+func (*sessAB) A() {}
+func (*sessAB) B() {}
+
+func mkSess(name, kind, tag int) realapp.Component {
+	b := sessBase{name, tag}
+	switch kind {
+	case 1:
+		return &sessA{b}
+	case 2:
+		return &sessB{b}
+	case 3:
+		return &sessAB{b}
+	}
+	return &sessNone{b}
+}
+
 func Run(r *corr.Run) {
 	r.SetRule("start/close: every component list of length 0..N (N=5 quick, 7 thorough) x every runnable mask x every single failure point (init of i, run of runnable i) plus random multi-failure lists; lookup: random container chains of depth 1..4 with shadowed names; a case is non-trivial when it has >= 2 components / containers; distinct = distinct op lines")
 	maxN := r.Pick(5, 7)
@@ -483,5 +653,8 @@ func Run(r *corr.Run) {
 			}
 		}
 		oneLookupT(r, chain, 1+r.Intn(2))
+	}
+	for k := 0; k < r.Pick(1500, 30000); k++ {
+		lookupSession(r, 1+r.Intn(4), &tag)
 	}
 }
